@@ -381,8 +381,11 @@ func isAggregate(t types.Type) bool {
 	return false
 }
 
+// sortNameOfType names the memory region of values of a Go type (element arrays E$..., boxed
+// cells M$...). Regions are per Go type, not per SMT sort: slices and pointers of different
+// types never alias (no unsafe in the subset).
 func sortNameOfType(t types.Type) string {
-	return sanitize(string(sortOfStatic(t)))
+	return sanitize(types.TypeString(types.Unalias(t), func(p *types.Package) string { return p.Name() }))
 }
 
 // freshValues computes SSA values that certainly denote objects allocated in this call.
@@ -469,7 +472,9 @@ func (P *Program) instrMods(fn *ssa.Function, in ssa.Instruction, fresh map[ssa.
 		}
 		m["M$"+sortNameOfType(et)] = true
 	case *ssa.MapUpdate:
-		m["MAP$"+sortNameOfType(x.Map.Type())] = true
+		dk, vk := mapKeys(x.Map.Type())
+		m[dk] = true
+		m[vk] = true
 	case *ssa.Send:
 		m[ghSent] = true
 		m[ghLast] = true
@@ -506,7 +511,9 @@ func (P *Program) callMods(fn *ssa.Function, c *ssa.CallCommon, m map[string]boo
 		case "close":
 			m[ghClosed] = true
 		case "delete":
-			m["MAP$"+sortNameOfType(c.Args[0].Type())] = true
+			dk, vk := mapKeys(c.Args[0].Type())
+			m[dk] = true
+			m[vk] = true
 		case "append":
 			if sl, ok := c.Args[0].Type().Underlying().(*types.Slice); ok {
 				m["E$"+sortNameOfType(sl.Elem())] = true
@@ -718,13 +725,20 @@ func (P *Program) modExprKeys(fn *ssa.Function, ct *Contract, e *Expr) []string 
 				return []string{ghSpawn + "$" + e.Args[0].Lit}
 			}
 			return []string{ghSpawn}
-		case "elems":
+		case "elems", "mem":
+			// elems("T"): the element arrays of []T / [N]T; mem("T"): cells holding a T reached through *T
 			if len(e.Args) == 1 {
-				return []string{"E$" + e.Args[0].String()}
-			}
-		case "mem":
-			if len(e.Args) == 1 {
-				return []string{"M$" + e.Args[0].String()}
+				prefix := "E$"
+				if e.Name == "mem" {
+					prefix = "M$"
+				}
+				if e.Args[0].Kind == "str" {
+					if t := P.resolveTypeName(ct.Pkg, e.Args[0].Lit); t != nil {
+						return []string{prefix + sortNameOfType(t)}
+					}
+					return []string{"#BAD:" + e.String()}
+				}
+				return []string{prefix + e.Args[0].String()}
 			}
 		case "mapof":
 			if len(e.Args) == 1 {
@@ -759,6 +773,38 @@ func (P *Program) modExprKeys(fn *ssa.Function, ct *Contract, e *Expr) []string 
 		}
 	}
 	return []string{"#BAD:" + e.String()}
+}
+
+// resolveTypeName: "T", "*T", "[]T", "pkg.T" or a basic type name, in the scope of a package.
+func (P *Program) resolveTypeName(pkgPath, name string) types.Type {
+	if strings.HasPrefix(name, "*") {
+		if t := P.resolveTypeName(pkgPath, name[1:]); t != nil {
+			return types.NewPointer(t)
+		}
+		return nil
+	}
+	if strings.HasPrefix(name, "[]") {
+		if t := P.resolveTypeName(pkgPath, name[2:]); t != nil {
+			return types.NewSlice(t)
+		}
+		return nil
+	}
+	if strings.HasPrefix(name, "chan ") {
+		if t := P.resolveTypeName(pkgPath, name[5:]); t != nil {
+			return types.NewChan(types.SendRecv, t)
+		}
+		return nil
+	}
+	if i := strings.LastIndex(name, "."); i >= 0 {
+		return P.lookupNamedType(name[:i], name[i+1:])
+	}
+	if tn := P.lookupTypeName(pkgPath, name); tn != nil {
+		return tn.Type()
+	}
+	if o, ok := types.Universe.Lookup(name).(*types.TypeName); ok {
+		return o.Type()
+	}
+	return nil
 }
 
 // lookupNamedType finds a named type of any loaded (possibly external) package by package name.
